@@ -51,6 +51,9 @@ func genC06(t *rapid.T) c06Case {
 	if c.Cfg.Algo == "gradient" && rapid.IntRange(0, 4).Draw(t, "defaultMax") == 0 {
 		c.Cfg.Max = rapid.SampledFrom([]int{0, -1, -1000}).Draw(t, "unsetMax") // "use the default maximum"; the configured minimum stays what it is
 	}
+	if c.Cfg.NoLoad == "" && c.Cfg.known("max") {
+		genUnsetSafe(t, &c.Cfg) // short constructors / parameters left to the library's defaults (no default value is assumed)
+	}
 	if rapid.Bool().Draw(t, "hasPrefix") {
 		c.Prefix = genSamples(t, c.Cfg, 150)
 	}
@@ -81,6 +84,11 @@ func runC06(_ *testing.T, c c06Case) kit.Outcome {
 	b := buildLimit(c.Cfg, nil)
 	algo := c.Cfg.Algo
 	changed := false
+	defaults := c.Cfg.Ctor != "" || len(c.Cfg.Unset) > 0
+	if defaults && b.Outer.EstimatedLimit() < c.Cfg.floorOf() {
+		return kit.Outcome{Labels: []string{"discard:default-initial-below-min"}}
+	}
+	aimdFormula := algo == "aimd" && c.Cfg.Ctor == ""
 	for _, s := range c.Prefix {
 		before := b.Outer.EstimatedLimit()
 		b.Outer.OnSample(s.Start, s.RTT, s.inflight(before), s.Drop)
@@ -90,7 +98,7 @@ func runC06(_ *testing.T, c c06Case) kit.Outcome {
 			if after > before {
 				return kit.Viol(algo+":drop-raised", "prefix drop sample %+v raised the estimate %d -> %d", s, before, after)
 			}
-			if algo == "aimd" && after != aimdAfterDrop(before, c.Cfg.Backoff) {
+			if aimdFormula && after != aimdAfterDrop(before, c.Cfg.Backoff) {
 				return kit.Viol("aimd:formula", "drop at limit %d ratio %v: got %d want %d", before, c.Cfg.Backoff, after, aimdAfterDrop(before, c.Cfg.Backoff))
 			}
 		}
@@ -102,10 +110,16 @@ func runC06(_ *testing.T, c c06Case) kit.Outcome {
 	if after > before {
 		return kit.Viol(algo+":drop-raised", "drop sample %+v raised the estimate %d -> %d", c.Drop, before, after)
 	}
-	if algo == "aimd" {
+	if aimdFormula {
 		if want := aimdAfterDrop(before, c.Cfg.Backoff); after != want {
 			return kit.Viol("aimd:formula", "drop at limit %d ratio %v: got %d want max(1,min(limit-1,floor(limit*ratio)))=%d", before, c.Cfg.Backoff, after, want)
 		}
+	}
+	if defaults && algo != "aimd" {
+		// (b) with the library's own defaults in play: no bound can be derived without assuming their values; the
+		// run must still never move up, and it must keep moving down: the run goes on until 1000 further drops change nothing (the floor),
+		// and that floor must not lie above the one a fresh instance of the same configuration settles at.
+		return runC06Defaults(c, b, changed)
 	}
 	// (b) sustained drops
 	start := b.Outer.EstimatedLimit()
@@ -147,7 +161,7 @@ func runC06(_ *testing.T, c c06Case) kit.Outcome {
 		if cur > prev {
 			return kit.Viol(algo+":drop-raised", "drop %d of a sustained run (%+v) raised the estimate %d -> %d", steps, s, prev, cur)
 		}
-		if algo == "aimd" && cur != aimdAfterDrop(prev, c.Cfg.Backoff) {
+		if aimdFormula && cur != aimdAfterDrop(prev, c.Cfg.Backoff) {
 			return kit.Viol("aimd:formula", "drop at limit %d ratio %v: got %d", prev, c.Cfg.Backoff, cur)
 		}
 		reached = atFloor(cur)
@@ -188,6 +202,68 @@ func runC06(_ *testing.T, c c06Case) kit.Outcome {
 			out.Labels = append(out.Labels, "bound-use>0.5:"+algo)
 		}
 	}
+	return out
+}
+
+func runC06Defaults(c c06Case, b built, changed bool) kit.Outcome {
+	algo := c.Cfg.Algo
+	out := kit.Outcome{Labels: []string{"algo:" + algo, "defaults-in-play"}}
+	// runs blocks of 1000 drops until a whole block leaves the estimate where it was (settled) or the cap is hit
+	const block, maxBlocks = 1000, 300
+	run := func(x built) (val int, settled bool, v *kit.Outcome) {
+		i := 0
+		for blk := 0; blk < maxBlocks; blk++ {
+			at := x.Outer.EstimatedLimit()
+			for j := 0; j < block; j++ {
+				s := c.Run[i%len(c.Run)]
+				if c.Const {
+					s = c.Run[0]
+				}
+				i++
+				prev := x.Outer.EstimatedLimit()
+				x.Outer.OnSample(0, s.RTT, s.inflight(prev), true)
+				if cur := x.Outer.EstimatedLimit(); cur > prev {
+					w := kit.Viol(algo+":drop-raised", "drop %d of a sustained run (%+v) raised the estimate %d -> %d (defaults in play: ctor=%q unset=%v)", i, s, prev, cur, c.Cfg.Ctor, c.Cfg.Unset)
+					return 0, false, &w
+				}
+			}
+			if x.Outer.EstimatedLimit() == at {
+				return at, true, nil
+			}
+		}
+		return x.Outer.EstimatedLimit(), false, nil
+	}
+	start := b.Outer.EstimatedLimit()
+	got, gotSettled, v := run(b)
+	if v != nil {
+		return *v
+	}
+	fresh, err := tryBuildLimit(c.Cfg, nil)
+	if err != nil {
+		return out
+	}
+	want, wantSettled, v := run(fresh)
+	if v != nil {
+		return *v
+	}
+	if algo == "gradient" && c.Cfg.ProbeInterval != -1 {
+		out.Labels = append(out.Labels, "defaults:gradient-probing-not-compared")
+		return out
+	}
+	if algo == "vegas" && !c.Const {
+		// arbitrary RTTs: Vegas may consume any number of the samples as baseline maintenance (DESIGN 4/C06); only a
+		// constant positive RTT makes all but the first sample and the probes effective
+		out.Labels = append(out.Labels, "defaults:vegas-arbitrary-rtts-not-compared")
+		return out
+	}
+	if !gotSettled || !wantSettled {
+		out.Labels = append(out.Labels, "defaults:run-not-settled-within-cap")
+		return out
+	}
+	if got > want {
+		return kit.Viol(algo+":floor-not-reached", "defaults in play (ctor=%q unset=%v): sustained drops settle a fresh instance at %d, the instance that lived through the prefix (estimate %d) settles at %d and further drops no longer move it", c.Cfg.Ctor, c.Cfg.Unset, want, start, got)
+	}
+	out.NonTrivial = changed && start-got >= 3
 	return out
 }
 
